@@ -21,6 +21,7 @@ import (
 
 	"verifh/internal/arena"
 	"verifh/internal/cases"
+	"verifh/internal/tarx"
 )
 
 func init() {
@@ -35,6 +36,8 @@ type pOpts struct {
 }
 
 type pMeta struct {
+	WfRuns    int        `json:"wfruns"`   // writer faults injected (one Pack per byte offset of the slug)
+	WfSilent  []int      `json:"wfsilent"` // offsets at which Pack returned no error
 	Files     [][]string `json:"files"`
 	Size      int64      `json:"size"`
 	BodyBytes int64      `json:"bodybytes"`
@@ -64,6 +67,7 @@ type pCase struct {
 	Pre      []pPre                     `json:"pre,omitempty"`
 	Conc     bool                       `json:"conc,omitempty"`
 	C16      bool                       `json:"c16,omitempty"`
+	WFaults  bool                       `json:"wfaults,omitempty"`
 	Canon    *pCanon                    `json:"canon,omitempty"`
 	St       string                     `json:"st"`
 	Out      []uEntry                   `json:"out"`
@@ -252,7 +256,17 @@ func runPackCase(base string, c *pCase) (obs *pObs, infra string) {
 		if obs.Out == nil {
 			obs.Out = []uEntry{}
 		}
-		obs.Meta = pMeta{HdrSizes: hs, BodyBytes: bs, Files: [][]string{}}
+		obs.Meta = pMeta{HdrSizes: hs, BodyBytes: bs, Files: [][]string{}, WfSilent: []int{}}
+		if c.WFaults && perr == nil {
+			for off := 0; off < buf.Len(); off++ {
+				fw := &tarx.FaultWriter{W: io.Discard, N: off, Err: fmt.Errorf("injected write fault")}
+				_, werr := newPacker(g, root, c.Opts).Pack(g.Spell(root, c.Spelling), fw)
+				obs.Meta.WfRuns++
+				if werr == nil {
+					obs.Meta.WfSilent = append(obs.Meta.WfSilent, off)
+				}
+			}
+		}
 		if meta != nil {
 			obs.Meta.Size = meta.Size
 			for _, f := range meta.Files {
@@ -441,6 +455,7 @@ func packMain() int {
 		}
 		n := atomic.AddInt64(&seq, 1)
 		c.Gamma = gammas[int(n)%len(gammas)]
+		c.WFaults = *flagMode == "wfaults" && n%16 == 0
 		var canon *pCanon
 		if c.C16 {
 			cc := c
@@ -482,7 +497,7 @@ func packMain() int {
 			workers[w].kill()
 			workers[w] = nil
 			obs = pObs{Tree: c.Tree, Src: c.Src, Cwd: c.Cwd, Spelling: c.Spelling, Opts: c.Opts, Rules: c.Rules, Lines: c.Lines, Pre: c.Pre,
-				St: status, Out: []uEntry{}, Meta: pMeta{Files: [][]string{}}, RT: pRT{St: "none", Fs: []arena.PN{}}, Gamma: c.Gamma}
+				St: status, Out: []uEntry{}, Meta: pMeta{Files: [][]string{}, WfSilent: []int{}}, RT: pRT{St: "none", Fs: []arena.PN{}}, Gamma: c.Gamma}
 			if len(tail) > 600 {
 				tail = tail[:600]
 			}
@@ -529,7 +544,8 @@ func packMain() int {
 					}
 				}
 				obs.SizeOK = obs.Meta.Size == want && obs.Meta.BodyBytes == want && obs.Meta.HdrSizes == want
-				agree = obs.SizeOK && len(obs.Meta.Files) == len(c.Out)
+				agree = obs.SizeOK && len(obs.Meta.Files) == len(c.Out) && len(obs.Meta.WfSilent) == 0
+				acc.Extra("writer_fault_runs", int64(obs.Meta.WfRuns))
 				for i := 0; agree && i < len(c.Out); i++ {
 					agree = strings.Join(obs.Meta.Files[i], "/") == strings.Join(c.Out[i].Name, "/")
 				}
